@@ -9,7 +9,7 @@ from . import pool
 JPEG = b'\xff\xd8\xff\xe0\x00\x10JFIF\x00\x01\x01\x00\x00\x01\x00\x01\x00\x00' + bytes(range(64)) + b'\xff\xd9'
 T0 = datetime(2021, 5, 6, 7, 8, 9, tzinfo=timezone.utc)
 
-KINDS = ['doc-bytes', 'doc-str', 'doc-empty', 'literal-b', 'literal-u', 'cleartext', 'none', 'uid-self', 'uid-other', 'ua-self', 'ua-other',
+KINDS = ['doc-bytes', 'doc-str', 'doc-empty', 'literal-b', 'literal-u', 'literal-t', 'cleartext', 'none', 'uid-self', 'uid-other', 'ua-self', 'ua-other',
          'key-direct-self', 'key-direct-other', 'revoke-key', 'revoke-subkey', 'revoke-uid', 'bind', 'revoker', 'attest']
 
 HASHES = {'MD5': 1, 'SHA1': 2, 'SHA224': 11, 'SHA256': 8, 'SHA384': 9, 'SHA512': 10}
@@ -86,9 +86,9 @@ def pgpy_triple(signer, kind, hashname=None, opts=None, level=None):
             t.sig, t.subject, t.refsubj = k.sign(doc, **opts), doc, {'doc': doc.encode('utf-8')}
         elif kind == 'doc-empty':
             t.sig, t.subject, t.refsubj = k.sign(b'', **opts), b'', {'doc': b''}
-        elif kind in ('literal-b', 'literal-u'):
-            content = b'\x00\xffbinary\r\nliteral\n' * 3 if kind == 'literal-b' else 'unicode literal é日\n'
-            m = pgpy.PGPMessage.new(content, compression=CompressionAlgorithm.Uncompressed, format='b' if kind == 'literal-b' else 'u')
+        elif kind in ('literal-b', 'literal-u', 'literal-t'):
+            content = b'\x00\xffbinary\r\nliteral\n' * 3 if kind == 'literal-b' else ('unicode literal é日\n' if kind == 'literal-u' else 'text literal, not ascii: éü €\r\nsecond line\n')
+            m = pgpy.PGPMessage.new(content, compression=CompressionAlgorithm.Uncompressed, format=kind[-1])
             s = k.sign(m, **opts)
             m |= s
             lit = [p for p in wire.split(bytes(m)) if p.tag == 11][0]
